@@ -272,7 +272,10 @@ def rand_molecule(ml, rng, n=None, name=None, elems=None):
     n = rng.randint(0, 5) if n is None else n
     m = Molecule(n_atoms=0, name=name or rng.choice(NAMES))
     for i in range(n):
-        m.add_atom(Atom(rng.choice(elems or ELEMS)), [rand_coord(rng) for _ in range(3)])
+        a = Atom(rng.choice(elems or ELEMS))
+        if rng.random() < 0.5:
+            a.label = rng.choice(["C1", "Hx", "N", "Zz9", "a", "O2'", "X"])      # labels are NOT element symbols
+        m.add_atom(a, [rand_coord(rng) for _ in range(3)])
     if n >= 2:
         for _ in range(rng.randint(0, n)):
             i, j = rng.sample(range(n), 2)
@@ -402,6 +405,14 @@ def plan_damages(rng, lines, thorough, budget):
     ds += [(("del", i), "del") for i in sel]
     sel = idx if n <= per else sorted(rng.sample(idx, per))
     ds += [(("dup", i), "dup") for i in sel]
+    # every record tag mangled into an unknown / unrecognised tag (a corrupted @<TRIPOS>MOLECULE makes the next
+    # molecule's sections arrive while the previous molecule is still open)
+    tags = [i for i, l in enumerate(lines) if l.strip().startswith("@<TRIPOS>")]
+    if len(tags) > 60 and not thorough:
+        tags = sorted(rng.sample(tags, 60))
+    for i in tags:
+        ds.append((("repl", i, lines[i].rstrip() + "X"), "tok-tag"))
+        ds.append((("repl", i, lines[i].replace("@<TRIPOS>", "@<TRIPOS>_", 1)), "tok-tag"))
     for _ in range(min(per, 3 * max(n, 1))):
         if not n:
             break
